@@ -27,7 +27,7 @@ from vlib import OkV, Diag, Internal, TieBroken
 LEVEL = 'other'
 RULE = ('signatures: every length 0..10 over the 11 scalar IR types {i8,i16,i32,i64,u8,u16,u32,u64,ptr,f32,f64}: all '
         'signatures of length <= 2, homogeneous and two-type boundary signatures around the 6/8 register limits, plus '
-        'seeded random ones (quick ~1500, thorough ~6000); frames: stacksize in a boundary pool x every subset of the '
+        'seeded random ones (quick ~1200 signatures, thorough ~6500); frames: stacksize in a boundary pool x every subset of the '
         'exported callee_save list (through aliases). distinct non-trivial = distinct signature with at least one stack-passed '
         'argument, or distinct frame with stacksize > 0 or a saved register')
 EXPLANATION = ('PARTIAL. Proved (Coq, all signatures / all frames): argument and return locations of the model equal the psABI '
@@ -579,7 +579,7 @@ def signatures(ctx, thorough):
     for a, b in itertools.product(['i64', 'i32', 'i8', 'ptr'], ['f64', 'f32']):
         sigs.append((a, b) * 5)
         sigs.append((b,) * 4 + (a,) * 6)
-    n_rand = 6000 if thorough else 900
+    n_rand = 6000 if thorough else 700
     for _ in range(n_rand):
         n = rng.choice([3, 4, 5, 6, 7, 8, 9, 10, 10, 10])
         pool = rng.choice([TYPES, TYPES, ['i64', 'i32', 'ptr', 'u32', 'u64'], ['f32', 'f64', 'i64'], ['i8', 'i16', 'u8', 'u16', 'i64', 'f64']])
@@ -765,10 +765,16 @@ def gcc_search(ctx, impl):
 
 
 def run(ctx):
+    import time
+    t0 = time.time()
+    lap = lambda what: ctx.log('%-28s t=%.1fs' % (what, time.time() - t0))
     impl, tabs = regen(ctx)
+    lap('tables exported')
     ok, _ = ctx.build(['Proofs/C40_x86abi.vo'])
+    lap('proofs built (incl. lock wait)')
     if ok:
         ctx.check_props('Props/C40.v')
+    lap('props checked')
     thorough = not ctx.quick()
     # ---- correspondence: hand model vs implementation
     if ctx.build(['Model/X86Abi.vo', 'Lib/Val.vo'])[0]:
@@ -816,8 +822,10 @@ def run(ctx):
                 ctx.log('model/implementation disagree on', recs[i][0], recs[i][1])
             ctx.failed_stages.append(('correspondence', 'Model.X86Abi disagrees with ppci/arch/x86_64/arch.py on %d cases, first: %s %r'
                                       % (len(bad), recs[bad[0]][0], recs[bad[0]][1])))
+    lap('correspondence done')
     # ---- search against the independent oracle (cheap always; deep when something failed / thorough)
     search(ctx, impl, deep=thorough or bool(ctx.failed_stages))
+    lap('search done')
     ctx.cov['exhaustive'] = False
 
 
@@ -831,7 +839,7 @@ MANIFEST = {
             'abstract stack machine; every allocatable register the ABI preserves is covered by callee_save, every other one by the '
             'call clobber list. NOT covered: semantics/encoding of the emitted instructions, struct and variadic arguments, wincc, '
             'stack-passed float/double and 8/16-bit arguments on the caller side (NotImplementedError, reported), native execution.',
-    'note': 'trusted: Coq kernel; hand model tied to the code only by per-run differential correspondence (~1500 signatures x 3 '
+    'note': 'trusted: Coq kernel; hand model tied to the code only by per-run differential correspondence (~1200 signatures x 3 '
             'functions, ~200 frames x 2) and an AST/introspection table export; psABI/SDM reading in Spec/SysVSpec.v; the '
             'instruction-to-abstract-operation mapping in tools/props/c40.py. No axioms.',
     'technique': 'Coq proof over hand model + exported tables, differential correspondence, independent psABI oracle search',
